@@ -859,12 +859,16 @@ func scenarios(thorough bool) []*dialerh.Scenario {
 		c.addNodeEvents(0, t, m)
 		out = append(out, makeScenario(c))
 		// sup: reload suppression scopes and the quiesce window against every failure source
-		c = &cfg{name: "sup/" + typeShort[t], addrs: []string{"addr-x"}, groups: oneNode, depth: pick(5, 7)}
+		deep := pick(5, 7)
+		if t == TCP6 || t == DNS6 || t == DAT6 {
+			deep = 6 // thorough: the v6 twins one level less
+		}
+		c = &cfg{name: "sup/" + typeShort[t], addrs: []string{"addr-x"}, groups: oneNode, depth: deep}
 		c.addNodeEvents(0, t, map[evKind][]int{evPOK: nil, evPFail: {thrProbe(t)}, evTFail: {thrTraffic(t)}, evFFail: nil})
 		c.addGlobal(evBegin, evEnd, evAdv)
 		out = append(out, makeScenario(c))
 		// rel: snapshot -> restore -> floor against deaths and revivals
-		c = &cfg{name: "rel/" + typeShort[t], addrs: []string{"addr-x"}, groups: oneNode, depth: pick(5, 7)}
+		c = &cfg{name: "rel/" + typeShort[t], addrs: []string{"addr-x"}, groups: oneNode, depth: deep}
 		c.addNodeEvents(0, t, map[evKind][]int{evPOK: nil, evPFail: {thrProbe(t)}, evFFail: nil, evTOK: nil})
 		c.addGlobal(evReload, evAdv, evBegin, evEnd)
 		out = append(out, makeScenario(c))
@@ -896,7 +900,7 @@ func scenarios(thorough bool) []*dialerh.Scenario {
 		name string
 		gs   []groupSpec
 	}{{"share-ab-a", twoA}, {"share-a-ab", twoB}} {
-		c := &cfg{name: sh.name + "/tcp4+dat4", addrs: []string{"addr-x", "addr-y"}, groups: sh.gs, depth: pick(4, 6)}
+		c := &cfg{name: sh.name + "/tcp4+dat4", addrs: []string{"addr-x", "addr-y"}, groups: sh.gs, depth: pick(4, 5)}
 		for n := 0; n < 2; n++ {
 			c.addNodeEvents(n, TCP4, map[evKind][]int{evPOK: nil, evPFail: nil})
 			c.addNodeEvents(n, DAT4, map[evKind][]int{evFFail: nil, evTOK: nil})
@@ -909,7 +913,7 @@ func scenarios(thorough bool) []*dialerh.Scenario {
 	}
 	if thorough {
 		// cross: two nodes with different addresses, three domains each, deaths/revivals/reload across domains
-		c := &cfg{name: "cross/tcp4+dns4+dat4", addrs: []string{"addr-x", "addr-y"}, groups: twoA, depth: 6}
+		c := &cfg{name: "cross/tcp4+dns4+dat4", addrs: []string{"addr-x", "addr-y"}, groups: twoA, depth: 5}
 		for n := 0; n < 2; n++ {
 			c.addNodeEvents(n, TCP4, map[evKind][]int{evPOK: nil, evPFail: nil})
 			c.addNodeEvents(n, DNS4, map[evKind][]int{evPFail: {3}, evFFail: nil})
